@@ -7,6 +7,7 @@ import (
 	"fmt"
 	"io"
 	"os"
+	"path/filepath"
 	"regexp"
 	"sort"
 	"strconv"
@@ -58,9 +59,16 @@ func c07MdOf(tok string) (*c07Md, bool) {
 		return &c07Md{suffix: "_vm" + tok[1:], movable: true}, true
 	case 'i':
 		return &c07Md{suffix: "_vi" + tok[1:], movable: false}, true
+	case 'x':
+		// suffixes that do not name a sidecar file of their own
+		if j, _ := strconv.Atoi(tok[1:]); j < len(c07BadSuffixes) {
+			return &c07Md{suffix: c07BadSuffixes[j], movable: true}, true
+		}
 	}
 	return nil, false
 }
+
+var c07BadSuffixes = []string{"data", "", "..", "a/b", "_size", "_eviction_banned", "."}
 
 func c07SfxTok(suffix string) string {
 	switch {
@@ -76,9 +84,19 @@ func c07SfxTok(suffix string) string {
 
 var c07Names = []string{"aa11aa11", "bb22bb22", "cc33cc33", "aa11bb44"}
 
+// kb<j>: keys that do not name a directory of their own
+var c07BadKeys = []string{"", ".", "..", "a/b"}
+
 func c07KeyName(tok string) (string, bool) {
 	if len(tok) < 2 || tok[0] != 'k' {
 		return "", false
+	}
+	if tok[1] == 'b' {
+		j, err := strconv.Atoi(tok[2:])
+		if err != nil || j < 0 || j >= len(c07BadKeys) {
+			return "", false
+		}
+		return c07BadKeys[j], true
 	}
 	i, err := strconv.Atoi(tok[1:])
 	if err != nil || i < 0 || i > 9999 {
@@ -139,6 +157,10 @@ func c07Err(err error) string {
 	switch {
 	case err == nil:
 		return "ok"
+	case strings.HasPrefix(err.Error(), "ensure dir:") || strings.HasPrefix(err.Error(), "open file:") ||
+		strings.HasPrefix(err.Error(), "move dir:"):
+		// a file-system failure (it may wrap os.ErrExist / os.ErrNotExist: the prefix tells it apart)
+		return "ioerr"
 	case errors.Is(err, os.ErrNotExist):
 		return "notexist"
 	case errors.Is(err, os.ErrExist):
@@ -147,6 +169,10 @@ func c07Err(err error) string {
 		return "oos"
 	case errors.Is(err, errNoSpace):
 		return "nospace"
+	case errors.Is(err, errInvalidKey):
+		return "invalidkey"
+	case errors.Is(err, errInvalidMetadataSuffix):
+		return "invalidsfx"
 	case err.Error() == "metadata does not exist":
 		return "mdnotexist"
 	case strings.Contains(err.Error(), "target_util_percent"):
@@ -210,12 +236,67 @@ func c07Exec(t *verifh.T, c verifh.Case) {
 		})
 	}
 
+	planted := map[string]bool{}
 	do := func(op []string) bool {
 		if len(op) < 2 || op[0] != "op" {
 			return false
 		}
 		a := op[1:]
 		switch {
+		case (a[0] == "plant" || a[0] == "unplant") && len(a) == 3:
+			// a file planted in the store's tree makes the next Create / MarkComplete of the key fail on
+			// the file system: "data" = a regular file where the data file goes (O_EXCL fails), "dirfile" =
+			// a regular file where the blob's directory goes (MkdirAll fails), "cdir" = a non-empty
+			// directory where the complete blob goes (the rename fails)
+			key, ok1 := c07KeyName(a[1])
+			if !ok1 || strings.HasPrefix(a[1], "kb") {
+				return false
+			}
+			in, _ := s.Has(key)
+			var path string
+			switch a[2] {
+			case "data":
+				path = s.impl.blobPath(key, _incompleteBlob)
+			case "dirfile":
+				path = s.impl.dirPath(key, _incompleteBlob)
+			case "cdir":
+				path = filepath.Join(s.impl.dirPath(key, _completeBlob), "planted")
+			default:
+				return false
+			}
+			if a[0] == "unplant" {
+				if !planted[a[1]+a[2]] {
+					return false
+				}
+				delete(planted, a[1]+a[2])
+				if a[2] == "cdir" {
+					os.RemoveAll(filepath.Dir(path))
+				} else {
+					os.Remove(path)
+					if a[2] == "data" {
+						os.Remove(filepath.Dir(path))
+					}
+				}
+				t.Op(a, "ok")
+				return true
+			}
+			// only where nothing of the store lives: the key is not in the store ("data", "dirfile"), or it
+			// is there and incomplete ("cdir"); one planted file per key
+			cin, _ := s.ScopeComplete().Has(key)
+			if planted[a[1]+"data"] || planted[a[1]+"dirfile"] || planted[a[1]+"cdir"] {
+				return false
+			}
+			if (a[2] != "cdir" && in) || (a[2] == "cdir" && cin) {
+				return false
+			}
+			if err := os.MkdirAll(filepath.Dir(path), 0o775); err != nil {
+				return false
+			}
+			if err := os.WriteFile(path, []byte("planted"), 0o664); err != nil {
+				return false
+			}
+			planted[a[1]+a[2]] = true
+			t.Op(a, "ok")
 		case a[0] == "create" && len(a) == 4:
 			key, ok1 := c07KeyName(a[1])
 			size, err := strconv.ParseUint(a[2], 10, 64)
@@ -488,6 +569,17 @@ func c07AlphaScope() [][]string {
 	}
 }
 
+// alphabet of the I/O-failure family: creations and completions that fail on the file system
+func c07AlphaIO() [][]string {
+	return [][]string{
+		c07Op("create", "k0", "2", "xab"), c07Op("complete", "k0"), c07Op("create", "k1", "3", "xcd"),
+		c07Op("plant", "k1", "data"), c07Op("unplant", "k1", "data"), c07Op("plant", "k1", "dirfile"),
+		c07Op("plant", "k0", "cdir"), c07Op("unplant", "k0", "cdir"), c07Op("delete", "k0", "any"),
+		c07Op("create", "kb0", "1", "x"), c07Op("delete", "kb0", "any"), c07Op("delmd", "k0", "any", "x0"),
+		c07Op("setmd", "k0", "any", "x3", "x01"), c07Op("open", "k0", "any"),
+	}
+}
+
 func c07Exhaustive(tr *verifh.T, cfg []string, alpha [][]string, depth int, drain bool, stat string) {
 	var rec func(prefix [][]string, d int)
 	rec = func(prefix [][]string, d int) {
@@ -544,6 +636,27 @@ func c07Random(r *verifh.Rand, tr *verifh.T, malformed bool) verifh.Case {
 		k := pickKey()
 		sc := c07Scopes[r.Intn(len(c07Scopes))]
 		var o []string
+		if r.Chance(1, 20) || (malformed && r.Chance(1, 6)) {
+			// file-system failures, keys and suffixes that do not name files of their own
+			kk := fmt.Sprintf("k%d", r.Intn(nkeys))
+			switch r.Intn(6) {
+			case 0, 1:
+				o = c07Op("plant", kk, []string{"data", "dirfile", "cdir"}[r.Intn(3)])
+			case 2:
+				o = c07Op("unplant", kk, []string{"data", "dirfile", "cdir"}[r.Intn(3)])
+			case 3:
+				bk := fmt.Sprintf("kb%d", r.Intn(len(c07BadKeys)))
+				o = [][]string{c07Op("create", bk, "1", "x01"), c07Op("delete", bk, "any"), c07Op("open", bk, "any"),
+					c07Op("complete", bk)}[r.Intn(4)]
+			default:
+				x := fmt.Sprintf("x%d", r.Intn(len(c07BadSuffixes)))
+				o = [][]string{c07Op("delmd", k, sc, x), c07Op("setmd", k, sc, x, "x0102"), c07Op("getmd", k, sc, x),
+					c07Op("wamd", k, sc, x, "x01", "0")}[r.Intn(4)]
+			}
+			ops = append(ops, o)
+			tr.Count("random_op_"+o[1], 1)
+			continue
+		}
 		switch w := r.Intn(100); {
 		case w < 22:
 			k = fmt.Sprintf("k%d", r.Intn(nkeys))
@@ -622,6 +735,7 @@ func TestVerif_C07(t *testing.T) {
 	// and scope/metadata family (1 key)
 	c07Exhaustive(tr, []string{"cap=4", "shard=0", "rib=0"}, c07AlphaLRU(), verifh.Scale(3, 5), true, "exhaustive_lru_cases")
 	c07Exhaustive(tr, []string{"cap=4", "shard=2", "rib=1"}, c07AlphaScope(), verifh.Scale(3, 4), false, "exhaustive_scope_cases")
+	c07Exhaustive(tr, []string{"cap=4", "shard=2", "rib=0"}, c07AlphaIO(), verifh.Scale(3, 5), true, "exhaustive_io_cases")
 	// (b) random long histories + a malformed stream
 	r := verifh.NewRand(verifh.Seed(), "c07")
 	for i := 0; i < verifh.Scale(3000, 150000); i++ {
